@@ -216,7 +216,7 @@ Proof.
     { induction H as [|[w [[o ib] ci]] [w' [[o' ib'] ci']] za zb [Hw [Ho [Hf Hr]]] _ IH]; [reflexivity|].
       cbn [fst snd] in *. subst w'. inversion Ho; subst o' ib'. cbn [flat_map]. rewrite IH. f_equal.
       destruct ib; [reflexivity|]. rewrite Hr; [reflexivity|unfold uses_rows; rewrite Es; reflexivity]. }
-    rewrite Eh. clear Eh. set (mh := match flat_map _ (combine ws b) with [] => 1 | _ => _ end). clearbody mh.
+    rewrite Eh. clear Eh. set (mh := Z.max 1 (zmaxl (flat_map _ (combine ws b)))). clearbody mh.
     induction H as [|[w [[o ib] ci]] [w' [[o' ib'] ci']] za zb [Hw [Ho [Hf Hr]]] _ IH]; [reflexivity|].
     cbn [fst snd] in *. subst w'. inversion Ho; subst o' ib'. cbn [map]. rewrite IH. f_equal.
     destruct ib; [reflexivity|]. rewrite Hr; [reflexivity|unfold uses_rows; rewrite Es; reflexivity].
